@@ -738,7 +738,8 @@ def _fperiod_cases(rng, k):
     yield {"svc": "fperiod", "which": "factory_equal", "itv": 1.0, "nper": 4, "env": []}
     for i in range(k):
         yield {"svc": "fperiod", "which": ["linear", "relative", "switch", "stepwise"][i % 4],
-               "itv": rng.choice(FLOAT_ITVS), "nper": rng.choice([12, 40, 120]), "env": []}
+               "itv": rng.choice(FLOAT_ITVS), "nper": rng.choice([12, 40, 120]), "env": [],
+               "rerun": i % 3 != 2}      # the same service object is stopped and run again (a restarted runtime)
 
 
 def gen_cases(rng, n):                                      # noqa: F811
@@ -824,6 +825,12 @@ def _run_fperiod(case):
             async with trio.open_nursery() as n:
                 n.start_soon(env)
                 await svc.run()
+        if case.get("rerun"):
+            await trio.sleep(itv * 0.3)
+            out["t1"] = trio.current_time()
+            out["mark"] = len(times)
+            with trio.move_on_after(T):
+                await svc.run()
     try:
         trio.run(main, clock=trio.testing.MockClock(autojump_threshold=0))
     except _Stop:
@@ -838,7 +845,9 @@ def _run_fperiod(case):
     if which == "factory_equal":
         out["made"] = [t - out.get("t0", 0) for t in made]
         out["hatchery"] = sorted(c.demand for c in svc._hatchery)
-    out["times"] = [t - out.get("t0", 0) for t in times]
+    out["times"] = [t - out.get("t0", 0) for t in times[:out.get("mark", len(times))]]
+    if "mark" in out:
+        out["times2"] = [t - out["t1"] for t in times[out["mark"]:]]
     return out
 
 
@@ -867,6 +876,19 @@ def _oracle_fperiod(case, res):
             break
     if abs(len(ts) - (nper + 1)) > 1:
         v.append((None, "count: %s made %d steps in %d periods of %r" % (case["which"], len(ts), nper, itv)))
+    if case.get("rerun") and not v:
+        t2 = res.get("times2")
+        if t2 is None:
+            v.append((None, "rerun: %s was not run a second time (%s)" % (case["which"], res.get("raised"))))
+        else:
+            if not t2 or abs(t2[0]) > 1e-12:
+                v.append((None, "rerun first step: %s, run again after a stop, did not regulate at its start (%r)" % (case["which"], t2[:1])))
+            for a, b in zip(t2, t2[1:]):
+                if abs((b - a) - itv) > 1e-9 * max(1.0, itv):
+                    v.append((None, "rerun period: %s steps %r apart with interval %r in its second run" % (case["which"], b - a, itv)))
+                    break
+            if abs(len(t2) - (nper + 1)) > 1:
+                v.append((None, "rerun count: %s made %d steps in the %d periods of its second run" % (case["which"], len(t2), nper)))
     return v
 
 
